@@ -21,7 +21,7 @@ for p in props:
         "evidence_file": "evidence/%s.json" % pid,
         "replay_cmd_template": "python3-vt check.py %s --replay {path}" % pid,
         "engine": "pyvc",
-        "level_claimed": {"category": pd.get("level", "proof"), "text": pd["level_text"], "design_ref": pd.get("design_ref", "DESIGN.md section 5 (%s)" % pid)},
+        "level_claimed": {"category": pd.get("level", "proof"), "text": pd["level_text"], "design_ref": pd.get("design_ref", "DESIGN.md section 10.3 (as built) and section 5 (%s)" % pid)},
         "level_note": pd["level_note"],
         "technique": pd.get("technique", "contract-based deductive verification: sidecar contracts on the real functions, VCs generated from /repo's ASTs by pyvc, discharged by z3/cvc5"),
     })
@@ -32,7 +32,7 @@ m = {"version": 1,
      "engines": [{"name": "pyvc", "path": "pyvc/", "serves_properties": [c["property_id"] for c in checks],
                   "kind_free_text": "verification-condition generator for a Python subset (symbolic execution of the real ASTs against sidecar contracts; loops cut at invariants; calls by contract; specs as uninterpreted functions with explicit unfolding) + z3/cvc5 + native replay of counter-models"}],
      "checks": checks,
-     "notes": "exit codes of every check: 0 held / 1 violation (VIOLATION line) / 2 undecided / 3 checker error. KNOWN-FINDING lines list recorded genuine defects (known_findings.json).",
+     "notes": "exit codes of every check: 0 held on everything explored / 1 violation (VIOLATION line) / 3 checker error; an UNDECIDED unit (edit outside the verifier's subset, contract needing maintenance, solver time-out) is followed by a bounded native search and, if that is clean, reported with UNDECIDED lines, exit 0 and an evidence file downgraded to level exploration (PYVC_STRICT=1: exit 2). KNOWN-FINDING lines list recorded genuine defects (known_findings.json).",
      "not_applicable": na}
 json.dump(m, open(os.path.join(HERE, "MANIFEST.json"), "w"), indent=1)
 print("checks:", [c["property_id"] for c in checks], "n/a:", [x["property_id"] for x in na])
